@@ -34,7 +34,7 @@ def build_universe(rnd, n=60):
 
 
 def rand_obj(rnd):
-    return (rnd.choice([1, 2, 3, 3, 4, 5, 6, 7, 8, 4278190080]), rnd.choice([0, 0, 1, 2, 26]),
+    return (rnd.choice([1, 2, 3, 3, 4, 5, 6, 7, 8, 4278190080]), rnd.choice([0, 0, 1, 2, 26, 25, 25, 51, 701, 24]),
             rnd.choice(matchgen.TYPES + [None] if rnd.random() < 0.1 else matchgen.TYPES))
 
 
